@@ -7,6 +7,7 @@
 //! Exit status: 0 property held on everything explored (possibly with KNOWN-FINDING lines),
 //! 1 violation (a `VIOLATION property=<id> replay=<path>` line was printed), 2 harness error.
 
+mod arena;
 mod c01;
 mod c06;
 mod c08;
@@ -369,7 +370,7 @@ fn cmd_replay(path: &str) -> i32 {
     let (tx, rx) = std::sync::mpsc::channel();
     let id2 = id.clone();
     std::thread::Builder::new()
-        .stack_size(64 << 20)
+        .stack_size(8 << 20)
         .spawn(move || {
             let check = find(&id2).unwrap();
             let mut log = Vec::new();
